@@ -36,15 +36,14 @@ HEADER_EXEMPT = {"STEPfile::ReadHeader": _H, "STEPfile::HeaderDefaultFileName": 
                  "STEPfile::HeaderDefaultFileDescription": _H, "STEPfile::HeaderDefaultFileSchema": _H}
 
 
-def shift_before_use(prog, res, fname, file_suffix, rule, shift_pred, what):
+def shift_before_use(prog, res, fname, file_suffix, rule, is_shift_expr, what):
+    """The id extracted from the stream (`in >> V`) may reach look-ups / readers only after the file id
+    offset has been added: every use of V as a call argument must be dominated by `V = shift(V)`;
+    uses inside a shift expression (e.g. `X = IncrementFileId(V)`) and diagnostics are not uses."""
     fs = [f for f in prog.by_name.get(fname, []) if f.file.endswith(file_suffix)]
-    if len(fs) != 1:
-        # overloads: pick those that extract an int from a stream
-        pass
     done = 0
     for f in fs:
         cfg = f.cfg
-        # variables extracted from a stream:  in >> v
         extracted = {}
         for n in f.walk():
             if n["k"] == "Call" and n.get("opcall") == ">>" and len(n["ch"]) == 2:
@@ -52,34 +51,43 @@ def shift_before_use(prog, res, fname, file_suffix, rule, shift_pred, what):
                 if v["k"] == "Ref" and v.get("dk") == "local" and f.ty(v) == "int":
                     extracted.setdefault(v["d"], n)
         for d, ext in extracted.items():
-            shifts = []
+            shift_nodes = [n for n in f.walk() if is_shift_expr(f, n, d)]
+            in_shift = set()
+            for sn in shift_nodes:
+                for x in walk(sn):
+                    in_shift.add(x["i"])
+            self_shifts = []
             for n in f.walk():
                 if n["k"] in ("Assign", "CompoundAssign"):
                     lhs = strip(n["ch"][0])
-                    if lhs["k"] == "Ref" and lhs.get("d") == d and shift_pred(f, n, d):
-                        shifts.append(n)
+                    if lhs["k"] == "Ref" and lhs.get("d") == d and (n["i"] in in_shift or any(x["i"] in in_shift for x in walk(n["ch"][1]))):
+                        self_shifts.append(n)
             uses = []
             for n in f.walk():
-                if n["k"] == "Call" and not n.get("opcall") and n.get("fn") not in ("sprintf", "snprintf", "printf", "fprintf"):
-                    if any(s is n for sh in shifts for s in walk(sh)):
-                        continue
-                    for a in call_args(n):
-                        if any(x["k"] == "Ref" and x.get("d") == d for x in walk(a)):
-                            uses.append(n)
-            if not uses:
+                if n["k"] != "Call" or n["i"] in in_shift and not any(s is n for s in shift_nodes) and False:
+                    continue
+                if n.get("opcall") or n.get("fn") in ("sprintf", "snprintf", "printf", "fprintf"):
+                    continue
+                if n["i"] in in_shift:
+                    continue
+                for a in call_args(n):
+                    if any(x["k"] == "Ref" and x.get("d") == d and x["i"] not in in_shift for x in walk(a)):
+                        uses.append(n)
+                        break
+            if not uses and not shift_nodes:
                 continue
             done += 1
             key = "%s|%s|%s|shift(%s)" % (rule, f.relfile(), f.name, d.split(":")[-1])
-            if not shifts:
+            if not shift_nodes:
                 res.add(rule, key, f.where(ext), False,
                         "%s: id `%s` read from the stream is used (%s) without adding the file id offset" %
                         (f.name, d.split(":")[-1], expr_str(uses[0])[:60]))
                 continue
             bad = [u for u in uses if not any(cfg.dominates(cfg.locate(s), cfg.locate(u)) and cfg.locate(s) != cfg.locate(u)
-                                              for s in shifts)]
-            res.add(rule, key, f.where(shifts[0]), not bad,
-                    "%s: `%s` dominates all %d uses of the parsed id" % (what, expr_str(shifts[0]), len(uses)) if not bad else
-                    "%s: use `%s` (line %s) of the parsed id is not dominated by the offset shift" %
+                                              for s in self_shifts)]
+            res.add(rule, key, f.where(shift_nodes[0]), not bad,
+                    "%s: all %d call uses of the parsed id `%s` see the shifted value" % (what, len(uses), d.split(":")[-1]) if not bad else
+                    "%s: `%s` (line %s) receives the id as parsed from the file, without the file id offset" %
                     (f.name, expr_str(bad[0])[:70], bad[0]["l"]))
     return done
 
@@ -93,9 +101,8 @@ def r1(prog, res):
 
 def r2(prog, res):
     def is_incr(f, n, d):
-        rhs = strip(n["ch"][1])
-        return n["k"] == "Assign" and rhs["k"] == "Call" and (rhs.get("fn") or "").endswith("IncrementFileId") and \
-            any(x["k"] == "Ref" and x.get("d") == d for x in walk(rhs))
+        return n["k"] == "Call" and (n.get("fn") or "").endswith("IncrementFileId") and \
+            any(x["k"] == "Ref" and x.get("d") == d for x in walk(n))
     n = 0
     for fn in ("STEPfile::CreateInstance", "STEPfile::ReadInstance"):
         n += shift_before_use(prog, res, fn, "cleditor/STEPfile.cc", "R2.shift_in_both_passes", is_incr, fn)
@@ -279,13 +286,15 @@ def r3(prog, res):
 
 def r4(prog, res):
     def is_add(f, n, d):
-        pd = [p["d"] for p in f.params if p["n"] and __import__("re").match(FAMILY, p["n"])]
-        rhs = n["ch"][1]
-        mentions = any(x["k"] == "Ref" and x.get("d") in pd for x in walk(rhs))
-        if n["k"] == "CompoundAssign":
-            return n["op"] == "+=" and mentions
-        return mentions and any(x["k"] == "Ref" and x.get("d") == d for x in walk(rhs)) and \
-            strip(rhs)["k"] == "Binary" and strip(rhs)["op"] == "+"
+        import re as _re
+        pd = [p["d"] for p in f.params if p["n"] and _re.match(FAMILY, p["n"])]
+        if n["k"] == "CompoundAssign" and n["op"] == "+=":
+            lhs = strip(n["ch"][0])
+            return lhs["k"] == "Ref" and lhs.get("d") == d and any(x["k"] == "Ref" and x.get("d") in pd for x in walk(n["ch"][1]))
+        if n["k"] == "Binary" and n["op"] == "+":
+            refs = [x.get("d") for x in walk(n) if x["k"] == "Ref"]
+            return d in refs and any(p in refs for p in pd)
+        return False
     fs = [f for f in prog.by_name.get("ReadEntityRef", []) if "istream" in f.key]
     if not fs:
         res.broke("anchor vanished: ReadEntityRef(istream&,...)")
